@@ -263,7 +263,7 @@ def _triangle(b):
             else:
                 want = ref.fbank_response_sq(w, rate, left, mid, right, analytic)
                 obs = np.abs(got) ** 2
-            ok = np.all(np.isfinite(got)) and np.all(np.abs(obs - want) <= 1e-10) and \
+            ok = np.all(np.isfinite(got)) and np.all(np.abs(obs - want) <= 1e-12) and \
                 (not np.iscomplexobj(got) or np.all(got.imag == 0)) and np.all(got.real >= 0)
             if np.any(want > 0):
                 nontriv += 1
@@ -523,7 +523,7 @@ def subchecks(tier, seed):
         core.SubCheck(
             "triangle", tri_banks, _triangle,
             "triangular / Fbank banks x every filter x widths %r: every DFT bin equals the documented "
-            "triangle (Fbank: squared response vs triangle in mel), atol 1e-10; non-trivial = the "
+            "triangle (Fbank: squared response vs triangle in mel), atol 1e-12; non-trivial = the "
             "triangle has a non-zero bin" % (TRI_WIDTHS,),
             axes=dict(axes, width=list(TRI_WIDTHS)), replay=_replay_bank(_triangle)),
         core.SubCheck(
